@@ -78,8 +78,28 @@ package receiver
 //@   requires[C10] [not-dry-run] !rt.Opts.DryRun
 //@   nullable st
 
+//@ spec func fkey(rt: *receiver.Transfer, f: *receiver.File): int = pathKey(rt.DestRoot, f.Name)
+
+// C11: owner/group: changed exactly as requested (numeric ids), only when
+// the preserve option is on and the process may do it.
 //@ func (*receiver.Transfer).setUid
 //@   requires[C10] [not-dry-run] !rt.Opts.DryRun
+//@   requires [stat-current] infoUid(data(st)) == select(ghost.uid, fkey(rt, f)) && infoGid(data(st)) == select(ghost.gid, fkey(rt, f))
+//@   modifies ghost.uid, ghost.gid
+//@   ensures[C11] [uid] err == nil && rt.Opts.PreserveUid && G.receiver.amRoot ==> select(ghost.uid, fkey(rt, f)) == mod(f.Uid, 4294967296)
+//@   ensures[C11] [uid-kept] err == nil && !(rt.Opts.PreserveUid && G.receiver.amRoot) ==> select(ghost.uid, fkey(rt, f)) == old(select(ghost.uid, fkey(rt, f)))
+//@   ensures[C11] [gid-kept] err == nil && !rt.Opts.PreserveGid ==> select(ghost.gid, fkey(rt, f)) == old(select(ghost.gid, fkey(rt, f)))
+//@   ensures[C11] [others-untouched] forall k :: k != fkey(rt, f) ==> select(ghost.uid, k) == old(select(ghost.uid, k)) && select(ghost.gid, k) == old(select(ghost.gid, k))
+
+// C11/C12: after setPerms the entry has the requested mtime (to the second)
+// and permission bits; symlinks are left alone; a dry run changes nothing.
+//@ func (*receiver.Transfer).setPerms
+//@   modifies ghost.mtimeSec, ghost.perm, ghost.uid, ghost.gid
+//@   ensures[C11,C12] [mtime] err == nil && !rt.Opts.DryRun && rt.Opts.PreserveTimes && mod(div(mode, 4096), 16) != 10 ==> select(ghost.mtimeSec, fkey(rt, f)) == tsec(f.ModTime)
+//@   ensures[C11] [perm] err == nil && !rt.Opts.DryRun && mod(div(mode, 4096), 16) != 10 ==> select(ghost.perm, fkey(rt, f)) == mod(mode, 512)
+//@   ensures[C11] [symlink-untouched] mod(div(mode, 4096), 16) == 10 ==> ghost.perm == old(ghost.perm) && ghost.mtimeSec == old(ghost.mtimeSec)
+//@   ensures[C11,C10] [dry-run-untouched] rt.Opts.DryRun ==> ghost.perm == old(ghost.perm) && ghost.mtimeSec == old(ghost.mtimeSec) && ghost.uid == old(ghost.uid) && ghost.gid == old(ghost.gid)
+//@   ensures[C11] [others-untouched] forall k :: k != fkey(rt, f) ==> select(ghost.perm, k) == old(select(ghost.perm, k)) && select(ghost.mtimeSec, k) == old(select(ghost.mtimeSec, k))
 
 // ---------------------------------------------------------------- C12: update rule
 //@ func receiver.modTimeEqual
